@@ -20,8 +20,10 @@ A small frame machine that mirrors what `crates/runtime/src/vm.rs` and
         <f>                         (4)  compiled once, reached only by fall-through / the jumps
 
     so `return`, `break`, `continue` (plain jumps / frame pops) and an error leaving a catch block
-    never pass through (4), and `break`/`continue` out of `<b>` also skip (2): the catch entry
-    stays registered in the frame;
+    never pass through (4). `break`/`continue` out of `<b>` also skip (2); since /repo 0e9e81b the
+    compiler emits one `TryEnd` per try block open in the loop body right before their jump, so
+    the catch entries of the blocks they leave are removed (before that commit they stayed
+    registered: finding F-C04-5);
   * an error (`Throw`, or any failing instruction) runs `pop_call_stack_on_error`: frames are popped
     until one has a catch entry (`allow_catch`), execution resumes there with the error value in
     the entry's register — the entry is *not* removed by the unwinder; a frame entered from native
@@ -207,31 +209,36 @@ def concatOpt : List (Option (List Ins)) → Option (List Ins)
   | none :: _ => none
   | some a :: rest => (concatOpt rest).map (a ++ ·)
 
-/-- `compile_try_expression`'s layout; the catch register is `100 + nesting depth` -/
-def compile : Nat → Nat → E → Option (List Ins)
-  | 0, _, _ => none
-  | fuel + 1, depth, e =>
+/-- `compile_try_expression`'s layout; the catch register is `100 + nesting depth`.
+`op` = number of try *blocks* open in the body of the innermost enclosing loop
+(`Loop::open_try_blocks`, /repo 0e9e81b): `break`/`continue` emit one `TryEnd` for each of them
+before they jump, so the catch points of the try blocks they leave are cleared. A new loop starts
+at 0; the catch blocks and the `finally` block are compiled after the try block's count is popped
+(the catch code begins with its own `TryEnd`). -/
+def compile : Nat → Nat → Nat → E → Option (List Ins)
+  | 0, _, _, _ => none
+  | fuel + 1, depth, op, e =>
     match e with
     | .emit t _ => some [.emit t]                 -- the shown value is not modelled here
     | .lit _ => some []
-    | .assign _ e => compile fuel depth e
+    | .assign _ e => compile fuel depth op e
     | .throw (.lit v) => some [.throw v]
-    | .seq es => concatOpt (es.map (compile fuel depth))
+    | .seq es => concatOpt (es.map (compile fuel depth op))
     | .call f args =>                             -- code 0 is the main chunk, definition f is code f+1
       if args.all (fun a => match a with | .lit _ => true | _ => false) then some [.call (f + 1)] else none
     | .native .each f (.mkList items) => some (items.map (fun _ => Ins.callNative (f + 1)))
     | .ret (.lit _) => some [.ret]
-    | .brk => some [.brk]
-    | .cont => some [.cont]
+    | .brk => some (List.replicate op Ins.tryEnd ++ [.brk])
+    | .cont => some (List.replicate op Ins.tryEnd ++ [.cont])
     | .forList _ (.mkList items) body => do
-      let b ← compile fuel depth body
+      let b ← compile fuel depth 0 body
       pure (.loopEnter items.length b.length :: b ++ [.loopNext])
     | .try_ b cs fin => do
       let reg := 100 + depth
-      let bc ← compile fuel (depth + 1) b
-      let cc ← compileCatches (compile fuel (depth + 1)) reg cs
+      let bc ← compile fuel (depth + 1) (op + 1) b
+      let cc ← compileCatches (compile fuel (depth + 1) op) reg cs
       let fc ← match fin with
-        | some f => compile fuel depth f
+        | some f => compile fuel depth op f
         | none => some []
       -- TryStart; b; TryEnd; Jump fin; [catch:] TryEnd; catches; [fin:] f
       pure (.tryStart reg (bc.length + 2) :: bc ++ [.tryEnd, .jumpFwd (1 + cc.length)] ++ [.tryEnd] ++ cc ++ fc)
@@ -242,7 +249,7 @@ def compileProg (P : Prog) : Option Code :=
   let rec go : List E → Option Code
     | [] => some []
     | b :: rest => do
-      let c ← compile 64 0 b
+      let c ← compile 64 0 0 b
       let r ← go rest
       pure (c :: r)
   go bodies
